@@ -19,11 +19,12 @@ from ..models.grid import GridModel, RowModel, norm_index
 from .rows import cell_xml, compositions, encodings, row_xml
 
 
-def columns_xml(col_runs):
+def columns_xml(col_runs, first=0):
+    """Every declaration carries its own style name (co0, co1, ...): columns are told apart by it."""
     out = []
-    for k in col_runs:
+    for i, k in enumerate(col_runs):
         rep = f' table:number-columns-repeated="{k}"' if k > 1 else ""
-        out.append(f"<table:table-column{rep}/>")
+        out.append(f'<table:table-column table:style-name="co{first + i}"{rep}/>')
     return "".join(out)
 
 
@@ -33,9 +34,9 @@ def table_xml(spec):
     wrap = spec.get("wrap")
     if spec.get("colwrap") == "first":
         # first column declaration(s) inside a table:table-columns group, the rest direct
-        cols = f"<table:table-columns>{columns_xml(spec['cols'][:1])}</table:table-columns>{columns_xml(spec['cols'][1:])}"
+        cols = f"<table:table-columns>{columns_xml(spec['cols'][:1])}</table:table-columns>{columns_xml(spec['cols'][1:], 1)}"
     elif spec.get("colwrap") == "last":
-        cols = f"{columns_xml(spec['cols'][:-1])}<table:table-header-columns>{columns_xml(spec['cols'][-1:])}</table:table-header-columns>"
+        cols = f"{columns_xml(spec['cols'][:-1])}<table:table-header-columns>{columns_xml(spec['cols'][-1:], len(spec['cols']) - 1)}</table:table-header-columns>"
     if wrap == "lo":  # LibreOffice-like wrappers
         hdr = "".join(row_xml([tuple(p) for p in r["enc"]], r.get("rep", 1)) for r in spec["rows"][:1])
         rest = "".join(row_xml([tuple(p) for p in r["enc"]], r.get("rep", 1)) for r in spec["rows"][1:])
